@@ -48,6 +48,16 @@ Proof.
 Qed.
 Print Assumptions C12_merge.
 
+(* "or the output columns of a subquery": as a source, a subquery contributes exactly what a measurement would whose
+   fields are the subquery's fields - named by Field.Name, typed by EvalType over the subquery's own sources - and whose
+   tag keys are the references among its GROUP BY dimensions; so C12_merge and everything below apply to any mix of
+   measurements and subqueries.  (Field.Name is not all of ColumnNames: C12_subquery_top_tags_refuted.) *)
+Theorem C12_subquery_schema : forall orc mt fd q m pre post,
+  fd m = Some (sub_fields orc mt q, sub_tags q) ->
+  field_dimensions orc mt fd (pre ++ SSubQuery q :: post) = field_dimensions orc mt fd (pre ++ SMeasurement m :: post).
+Proof. exact field_dimensions_subquery. Qed.
+Print Assumptions C12_subquery_schema.
+
 (* the columns a field wildcard stands for: sorted by (name, type), without repetition, and exactly the merged fields -
    without the tags among them that the statement groups by (a subquery can select a tag) - plus, unless the statement
    has a GROUP BY wildcard, the tags it does not already group by *)
